@@ -75,6 +75,12 @@ Allowed(op, res) ==
       [] op.n = "Sum"   -> res.v = SumSeq(q)
       [] op.n = "SumBy" -> res.v = SumSeq([i \in DOMAIN q |-> FnInt(op.f, q[i])])
       [] op.n = "Mean"  -> res.v = QuoT(SumSeq(q), Len(q))
+      \* elements sign * 2^53 + q[i] with every q[i] of that sign (or 0); recorded is the result minus the base
+      \* (Sum: minus Len(q) times the base) - by the definitions that is the result on the offsets alone
+      [] op.n = "MeanBig" -> res.v = QuoT(SumSeq(q), Len(q))
+      [] op.n = "SumBig"  -> res.v = SumSeq(q)
+      [] op.n = "MinBig"  -> res.v \in { q[i] : i \in DOMAIN q } /\ \A i \in DOMAIN q : res.v <= q[i]
+      [] op.n = "MaxBig"  -> res.v \in { q[i] : i \in DOMAIN q } /\ \A i \in DOMAIN q : res.v >= q[i]
       \* defining inequalities, in int8 (negation wraps at the type bound as Go's does)
       [] op.n = "Abs8"   -> res.v = (IF op.a[1] < 0 THEN Wrap8(0 - op.a[1]) ELSE op.a[1])
       [] op.n = "Clamp8" -> LET x == op.a[1]  lo == op.a[2]  hi == op.a[3] IN
